@@ -554,14 +554,49 @@ func ruleExh(c *Ctx) {
 			if visited[tn] == nil {
 				visited[tn] = map[string]bool{}
 			}
-			ast.Inspect(&ast.BlockStmt{List: cc.Body}, func(m ast.Node) bool {
-				if se, ok := m.(*ast.SelectorExpr); ok {
-					if v, ok := info.Uses[se.Sel].(*types.Var); ok && v.IsField() {
-						visited[tn][se.Sel.Name] = true
+			// a field counts as visited only when it is mentioned unconditionally in the clause: at its top
+			// level, in a range loop, or under a nil test of that same field (a visit that depends on
+			// anything else - another field, the kind of redirect - hides some programs' sub-expressions)
+			var scan func(list []ast.Stmt, only string)
+			mention := func(nd ast.Node, only string) {
+				ast.Inspect(nd, func(m ast.Node) bool {
+					switch x := m.(type) {
+					case *ast.IfStmt, *ast.SwitchStmt, *ast.TypeSwitchStmt:
+						_ = x
+						return false // handled by scan
+					case *ast.SelectorExpr:
+						if v, ok := info.Uses[x.Sel].(*types.Var); ok && v.IsField() && (only == "" || only == x.Sel.Name) {
+							visited[tn][x.Sel.Name] = true
+						}
+					}
+					return true
+				})
+			}
+			scan = func(list []ast.Stmt, only string) {
+				for _, st := range list {
+					switch s := st.(type) {
+					case *ast.IfStmt:
+						// if n.F != nil { ... n.F ... }
+						if b, ok := s.Cond.(*ast.BinaryExpr); ok && b.Op == token.NEQ && isIdent(b.Y, "nil") {
+							if se, ok := b.X.(*ast.SelectorExpr); ok && s.Else == nil && (only == "" || only == se.Sel.Name) {
+								scan(s.Body.List, se.Sel.Name)
+							}
+						}
+					case *ast.RangeStmt:
+						mention(s.X, only)
+						scan(s.Body.List, only)
+					case *ast.ForStmt:
+						scan(s.Body.List, only)
+					case *ast.BlockStmt:
+						scan(s.List, only)
+					case *ast.SwitchStmt, *ast.TypeSwitchStmt:
+						// conditional: nothing inside counts
+					default:
+						mention(st, only)
 					}
 				}
-				return true
-			})
+			}
+			scan(cc.Body, "")
 		}
 		return true
 	})
